@@ -36,6 +36,9 @@ class FixFloatEqualityTransformer(
                         else cst.UnaryOperation(
                             operator=cst.Not(),
                             expression=isclose_call,
+                            # `2 * (a != 0.1)` is not `2 * not math.isclose(..)`
+                            lpar=updated_node.lpar,
+                            rpar=updated_node.rpar,
                         )
                     )
         return updated_node
